@@ -10,6 +10,7 @@ package main
 
 import (
 	"fmt"
+	"go/token"
 	"go/types"
 	"os"
 	"sort"
@@ -41,6 +42,10 @@ func (e *SEnv) frameTargets(m *SX) []frameTarget {
 			return g.ptrTerm(v.V.A)
 		}
 		return v.V.T
+	}
+	if t, fi, ok := e.anyofField(m); ok {
+		n, _ := g.fieldArrName(t, fi)
+		return []frameTarget{{name: n, whole: true}}
 	}
 	switch m.Op {
 	case "sel":
@@ -150,29 +155,54 @@ func arraySortLevels(srt string) ([]string, string) {
 	return keys, srt
 }
 
-func (fr *Frame) checkFrame(ret *ssa.Return, h Heap) {
+// frameActive: does this unit carry frame obligations?
+func (fr *Frame) frameActive() bool {
 	fc := fr.fc
-	if fc == nil || fc.ModAll || fc.NoFrame || fc.Swept || os.Getenv("GOVC_FRAME") == "0" {
-		return
+	if !fr.top || fc == nil || fc.Trusted || fc.ModAll || fc.NoFrame || fc.Swept || os.Getenv("GOVC_FRAME") == "0" {
+		return false
 	}
+	// the frame of a function matters where its contract replaces its body: at call sites in other
+	// verified units. Entry points that nothing calls through a contract (behaviour run loops,
+	// goroutine bodies) are checked only if they declare a modifies clause themselves.
+	return fc.ViaContract || len(fc.Modifies) > 0
+}
+
+// frameFormulas: for every heap array whose term in h differs from the entry term, "unchanged outside
+// the modifies targets" (names, formulas).
+func (fr *Frame) frameFormulas(h Heap) ([]string, []string) {
+	fc := fr.fc
 	g := fr.g
-	env := fr.newSpecEnv(fr.entry, fr.entry)
-	fr.bindEntryParams(env)
-	byName := map[string][]frameTarget{}
-	for _, m := range fc.Modifies {
-		env.where = fmt.Sprintf("%s:%d", fc.File, fc.Line)
-		for _, t := range env.frameTargets(m) {
-			byName[t.name] = append(byName[t.name], t)
+	if fr.frameTargetsCache == nil {
+		env := fr.newSpecEnv(fr.entry, fr.entry)
+		fr.bindEntryParams(env)
+		byName := map[string][]frameTarget{}
+		for _, m := range fc.Modifies {
+			env.where = fmt.Sprintf("%s:%d", fc.File, fc.Line)
+			for _, t := range env.frameTargets(m) {
+				byName[t.name] = append(byName[t.name], t)
+			}
 		}
+		fr.frameTargetsCache = byName
+	}
+	byName := fr.frameTargetsCache
+	// words under a rely/guarantee protocol and their ghosts are written by other threads at any time
+	// (environment steps): they are volatile, not part of any function's frame
+	volatile := map[string]bool{}
+	for _, pr := range g.P.Contracts.Protocols {
+		for _, gh := range pr.Ghosts {
+			volatile["G$"+gh] = true
+		}
+		volatile["H$"+strings.ReplaceAll(pr.PkgPath, "/", ".")+"."+pr.Struct+"$"+pr.Field] = true
 	}
 	var names []string
 	for n := range g.heapSort {
-		if !frameSkipArray(n) {
+		if !frameSkipArray(n) && !volatile[n] {
 			names = append(names, n)
 		}
 	}
 	sort.Strings(names)
 	allocEntry := fr.allocOf(fr.entry)
+	var outN, outF []string
 	for _, n := range names {
 		srt := g.heapSort[n]
 		cur := g.heapArr(h, n, srt)
@@ -226,12 +256,78 @@ func (fr *Frame) checkFrame(ret *ssa.Return, h Heap) {
 			}
 			return t
 		}
-		f := fmt.Sprintf("(forall (%s) (=> %s (= %s %s)))", strings.Join(binds, " "), and(excl...), sel(cur), sel(ent))
-		fr.oblig("frame", "frame", "frame", f, "only what the modifies clause names may change: "+n, ret.Pos())
+		pat := sel(cur)
+		outN = append(outN, n)
+		outF = append(outF, fmt.Sprintf("(forall (%s) (! (=> %s (= %s %s)) :pattern (%s)))", strings.Join(binds, " "), and(excl...), sel(cur), sel(ent), pat))
 	}
+	return outN, outF
+}
+
+func (fr *Frame) frameOblig(label string, h Heap, pos token.Pos) {
+	names, fs := fr.frameFormulas(h)
+	if len(fs) == 0 {
+		return
+	}
+	if os.Getenv("GOVC_FRAME_SPLIT") != "" {
+		for i, f := range fs {
+			fr.oblig("frame", "frame", "frame", f, label+": only what the modifies clause names may change: "+names[i], pos)
+		}
+		return
+	}
+	fr.oblig("frame", "frame", "frame", and(fs...), label+": only what the modifies clause names may change (arrays written on this path: "+strings.Join(names, " ")+"; GOVC_FRAME_SPLIT=1 reports them one by one)", pos)
+}
+
+func (fr *Frame) checkFrame(ret *ssa.Return, h Heap) {
+	if !fr.frameActive() {
+		return
+	}
+	fr.frameOblig("at return", h, ret.Pos())
 }
 
 // bindEntryParams binds parameter names to their entry values (parameters are SSA values: immutable).
 func (fr *Frame) bindEntryParams(env *SEnv) {
 	fr.bindParams(env)
+}
+
+// markViaContract: which functions under contract are called, by a verified unit, through their contract.
+func (p *Program) markViaContract() {
+	seen := map[*ssa.Function]bool{}
+	var walk func(fn *ssa.Function)
+	walk = func(fn *ssa.Function) {
+		if fn == nil || seen[fn] {
+			return
+		}
+		seen[fn] = true
+		for _, b := range fn.Blocks {
+			for _, in := range b.Instrs {
+				ci, ok := in.(ssa.CallInstruction)
+				if !ok {
+					continue
+				}
+				if _, isGo := in.(*ssa.Go); isGo {
+					continue // a started goroutine's effects are the protocol layer's business, not a frame
+				}
+				callee := ci.Common().StaticCallee()
+				if callee == nil {
+					continue
+				}
+				if fc := p.contractFor(callee); fc != nil {
+					if fc.Inline {
+						walk(callee)
+					} else if !fc.Trusted {
+						fc.ViaContract = true
+					}
+				}
+			}
+		}
+		for _, af := range fn.AnonFuncs {
+			walk(af)
+		}
+	}
+	for _, fc := range p.Contracts.Funcs {
+		if fc.Trusted || fc.Functype {
+			continue
+		}
+		walk(p.findFunc(fc))
+	}
 }
